@@ -427,7 +427,10 @@ func Run(t *testing.T, codecs []*Codec) {
 			// new tail length - a self-consistent frame around a ragged body (a vector of
 			// fixed-size elements whose byte length is no multiple of the element size, a last
 			// element cut short), which plain truncation and trailing garbage never produce
-			for _, fr := range reframed(rnd, enc) {
+			for fi, fr := range reframed(rnd, enc) {
+				if thorough && fi >= 12 { // the thorough tier has 17x more encodings: 12 variants each keep its volume in bounds
+					break
+				}
 				cs := observe(c, "reframe", fr)
 				cs.Parent = parent
 				out.Emit(cs)
